@@ -22,6 +22,7 @@ func main() {
 	commands["idl"] = cmdIdl
 	commands["gen"] = cmdGen
 	commands["gen08"] = cmdGen08
+	commands["realclock"] = cmdRealClock
 	commands["acthelper"] = cmdActHelper
 	if len(os.Args) < 2 {
 		fmt.Fprintln(os.Stderr, "usage: vdriver <command> [flags]")
